@@ -1,5 +1,5 @@
 SPECIFICATION Spec
-CONSTANT UseCb = FALSE
+CONSTANT UseCb = TRUE
 CONSTANT Points <- PointsQuick
 INVARIANTS Sound ItIsPeeling CountersSane PartialSums NoNullDeref ClaimTruthful LedgerOK NoLeakAtRelease
 CHECK_DEADLOCK FALSE
